@@ -4,6 +4,45 @@ use std::cell::{Cell, RefCell};
 use std::panic::{self, AssertUnwindSafe};
 use std::sync::Once;
 
+/// coarse clock (seconds since start), advanced by the watchdog thread
+pub static TICK: std::sync::atomic::AtomicU64 = std::sync::atomic::AtomicU64::new(1);
+/// one slot per thread: 0 = not inside the code under test, otherwise the tick at which the
+/// current call into it started
+static SLOTS: std::sync::Mutex<Vec<std::sync::Arc<std::sync::atomic::AtomicU64>>> = std::sync::Mutex::new(Vec::new());
+
+thread_local! {
+    static SLOT: std::sync::Arc<std::sync::atomic::AtomicU64> = {
+        let a = std::sync::Arc::new(std::sync::atomic::AtomicU64::new(0));
+        SLOTS.lock().unwrap().push(std::sync::Arc::clone(&a));
+        a
+    };
+}
+
+/// longest time (in ticks = seconds) any thread has currently spent inside one call into the code under test
+pub fn longest_call_in_progress() -> u64 {
+    let now = TICK.load(std::sync::atomic::Ordering::Relaxed);
+    SLOTS.lock().unwrap().iter().map(|s| { let t = s.load(std::sync::atomic::Ordering::Relaxed); if t == 0 { 0 } else { now.saturating_sub(t) } }).max().unwrap_or(0)
+}
+
+/// report a call into the code under test that does not return as a violation of the property
+/// being decided (called by the watchdog)
+pub fn report_hang(secs: u64) -> ! {
+    if let Ok(g) = SUBJECT.lock() {
+        if let Some((prop, root)) = g.as_ref() {
+            let dir = format!("{}/replays/{}", root, prop);
+            let _ = std::fs::create_dir_all(&dir);
+            let path = format!("{}/non-termination.json", dir);
+            let body = format!("{{\n  \"property\": \"{}\",\n  \"signature\": \"call into the code under test does not return\",\n  \"message\": \"an operation of the code under test has been running for {} s (every operation of the explored configurations returns within milliseconds on the unchanged tree)\"\n}}\n", prop, secs);
+            let _ = std::fs::write(&path, body);
+            eprintln!("violation [call into the code under test does not return] running for {} s", secs);
+            println!("VIOLATION property={} replay={}", prop, path);
+            std::process::exit(1);
+        }
+    }
+    eprintln!("MACHINERY: a call has been running for {} s", secs);
+    std::process::exit(2);
+}
+
 thread_local! {
     static QUIET: Cell<u32> = const { Cell::new(0) };
     static LAST: RefCell<String> = const { RefCell::new(String::new()) };
@@ -56,11 +95,32 @@ pub fn install() {
     });
 }
 
+/// Run `f` under the non-termination watch only (no panic capture): used around oracle code
+/// that calls into the code under test (queries), so that a call that never returns is noticed.
+pub fn watch<R>(f: impl FnOnce() -> R) -> R {
+    let outer = SLOT.with(|s| s.load(std::sync::atomic::Ordering::Relaxed));
+    if outer == 0 {
+        SLOT.with(|s| s.store(TICK.load(std::sync::atomic::Ordering::Relaxed), std::sync::atomic::Ordering::Relaxed));
+    }
+    let r = f();
+    if outer == 0 {
+        SLOT.with(|s| s.store(0, std::sync::atomic::Ordering::Relaxed));
+    }
+    r
+}
+
 /// Run `f`; `Err(message)` if it panicked.
 pub fn catch<R>(f: impl FnOnce() -> R) -> Result<R, String> {
     install();
     QUIET.with(|q| q.set(q.get() + 1));
+    let nested = QUIET.with(|q| q.get()) > 1 || SLOT.with(|s| s.load(std::sync::atomic::Ordering::Relaxed)) != 0;
+    if !nested {
+        SLOT.with(|s| s.store(TICK.load(std::sync::atomic::Ordering::Relaxed), std::sync::atomic::Ordering::Relaxed));
+    }
     let r = panic::catch_unwind(AssertUnwindSafe(f));
+    if !nested {
+        SLOT.with(|s| s.store(0, std::sync::atomic::Ordering::Relaxed));
+    }
     QUIET.with(|q| q.set(q.get() - 1));
     r.map_err(|_| LAST.with(|l| l.borrow().clone()))
 }
